@@ -95,9 +95,14 @@ class C05Machine(Machine):
         self.curies = load_curies()
         self.conv = None
         self.model = None
-        self.strings, self.pairs = observe.probe_sets(
-            config["curie_pool"], config["uri_pool"], config["id_pool"], [config["delimiter"]]
-        )
+        cp, up = config["curie_pool"], config["uri_pool"]
+        if config.get("large"):
+            # large configurations: probe every base token and every 4th synthetic one
+            nb_c = len(cp) - 60
+            nb_u = len(up) - 60
+            cp = cp[:nb_c] + cp[nb_c::4]
+            up = up[:nb_u] + up[nb_u::4]
+        self.strings, self.pairs = observe.probe_sets(cp, up, config["id_pool"], [config["delimiter"]])
         self.snap = None
         self.last_record_obj = None
         self.last_record_dump = None
